@@ -6,6 +6,7 @@ import Bourse.Model.Ops
 import Bourse.Lemmas.MatchFrame
 import Bourse.Lemmas.ListAux
 import Bourse.Lemmas.RefineStep
+import Bourse.Lemmas.NoOverflow
 
 namespace Bourse.Props.C06
 open Bourse
@@ -194,5 +195,16 @@ theorem ref_enter_keeps_identity (s : Ref.RState) (agg : Order) (market : Bool) 
     · split
       · exact hm
       · exact hm
+
+/-- `modify_is_reference_modify` at every state reached by a valid history, for every modify request
+on a known id whose outcome keeps the totals below `2^32` (the property's validity conditions). -/
+theorem modify_is_reference_modify_valid (t0 tick : Nat) (trading : Bool) (ops : List Op)
+    (h : ValidHistory t0 tick trading ops) (id : Nat) (np nv : Option Nat)
+    (hp : ∀ p, np = some p → p ≤ MAXP) (hvv : ∀ v, nv = some v → 0 < v)
+    (hid : id < ((Book.new t0 tick trading).run ops).orders.length)
+    (hb : (((Book.new t0 tick trading).run ops).modifyOrder id np nv).Bounded) :
+    abs (((Book.new t0 tick trading).run ops).modifyOrder id np nv) =
+      Ref.modify (abs ((Book.new t0 tick trading).run ops)) id np nv :=
+  modify_is_reference_modify h.inv id np nv hp (h.inv.modify_nofault id np nv hid hvv hb)
 
 end Bourse.Props.C06
